@@ -1,5 +1,136 @@
 import Cellml.Basic.Sexp
-/-! Channel C13 of the model driver (stub: not built yet). -/
+import Cellml.Model.Cmeta
+import Cellml.C01.Driver
+
+/-! Channel C13: one history per request.
+    `(C13 run init (univ (ids "id"…) (queries (p o)…) (terms node…) (nss ns…)) (ops op…))`
+       init  = `(api none|"model-id")` — `Model(name, cmeta_id)` —
+             | `(doc none|"model-id" (units…) (comps…) (encaps…) (conns…))` — the C01 wire format: the document is
+               loaded with `Load.load`; the state is the list of flat variables with their ids after the moves
+       node  = `(uri "text")` | `(lit "text")`;  o = node | `none`;  ns = `none` | `"prefix"`
+       op    = `(addVar "name" none|"id")` `(rmVar i)` `(cmeta i)` `(xfer a b)` `(rdf "subject-id" "predicate" node)`
+               `(conv i true|false same|output|(input i…))` `(lmove target dst)`
+    → `(ok (outcome snapshot)…)`, one entry for the initial state (outcome `init`) and one per call, or
+      `(err Class "what")` when the document does not load. -/
 namespace C13
-def handle (_args : List Sexp) : Sexp := .atom "not-implemented"
+open Sexp Model
+
+def ofOpt {α} (f : α → Sexp) : Option α → Sexp
+  | some x => f x
+  | none => .atom "none"
+
+def ofOutcome : Outcome → Sexp
+  | .ok => .atom "ok"
+  | .raised .valueError => .atom "ValueError"
+  | .raised .keyError => .atom "KeyError"
+  | .raised (.graphError _) => .atom "GraphError"
+  | .raised .notInModel => .atom "NotInModel"
+  | .raised .cmetaFuel => .atom "CmetaFuel"
+
+def ofLErr : LErr → Sexp
+  | .keyError => .atom "KeyError"
+  | .valueError => .atom "ValueError"
+
+def optStr? : Sexp → Option (Option String)
+  | .atom "none" => some none
+  | .str s => some (some s)
+  | _ => none
+
+def node? : Sexp → Option RNode
+  | .list [.atom "uri", .str s] => some (.uri s)
+  | .list [.atom "lit", .str s] => some (.lit s)
+  | _ => none
+
+def optNode? : Sexp → Option (Option RNode)
+  | .atom "none" => some none
+  | e => (node? e).map some
+
+def kind? : Sexp → Option ConvKind
+  | .atom "same" => some .same
+  | .atom "output" => some .output
+  | .list (.atom "input" :: ds) => do some (.input (← ds.mapM nat?))
+  | _ => none
+
+def op? : Sexp → Option AOp
+  | .list [.atom "addVar", .str n, c] => do some (.base (.addVariable n (← optStr? c) none))
+  | .list [.atom "rmVar", v] => do some (.base (.removeVariable (← nat? v)))
+  | .list [.atom "cmeta", v] => do some (.base (.addCmetaId (← nat? v)))
+  | .list [.atom "xfer", a, b] => do some (.base (.transferCmetaId (← nat? a) (← nat? b)))
+  | .list [.atom "rdf", .str s, .str p, o] => do some (.addRdf ⟨s, p, ← node? o⟩)
+  | .list [.atom "conv", v, mv, k] => do some (.convert (← nat? v) (mv == .atom "true") (← kind? k))
+  | .list [.atom "lmove", t, d] => do some (.loaderMove (← nat? t) (← nat? d))
+  | _ => none
+
+structure Univ where
+  ids : List String
+  queries : List (String × Option RNode)
+  terms : List RNode
+  nss : List (Option String)
+
+def univ? : Sexp → Option Univ
+  | .list [.atom "univ", .list (.atom "ids" :: ids), .list (.atom "queries" :: qs), .list (.atom "terms" :: ts),
+           .list (.atom "nss" :: ns)] => do
+      let ids ← ids.mapM atomOf?
+      let qs ← qs.mapM (fun q => match q with
+        | .list [.str p, o] => do some (p, ← optNode? o)
+        | _ => none)
+      some ⟨ids, qs, ← ts.mapM node?, ← ns.mapM optStr?⟩
+  | _ => none
+
+def ofRes {α} (f : α → Sexp) : Except LErr α → Sexp
+  | .ok x => .list [.atom "ok", f x]
+  | .error e => .list [.atom "err", ofLErr e]
+
+def snapshot (u : Univ) (a : AState) : Sexp :=
+  let s := a.m
+  .list [
+    .list (.atom "vars" :: s.live.map (fun i => .list [ofNat i, .str (nameOfVar s i), ofOpt .str (cmetaOf s i)])),
+    .list (.atom "has" :: u.ids.map (fun c => ofBool (hasCmetaId s c))),
+    .list (.atom "byid" :: u.ids.map (fun c => ofOpt ofNat (getVariableByCmetaId s c))),
+    .list (.atom "byrdf" :: u.queries.map (fun (p, o) => ofRes (fun vs => .list (vs.map ofNat)) (byRdf a p o))),
+    .list (.atom "byterm" :: u.terms.map (fun t => ofRes ofNat (byTerm a t))),
+    .list (.atom "terms" :: s.live.map (fun i =>
+      .list (ofNat i :: u.nss.map (fun ns => .list ((termsOf a i ns).map .str))))),
+    .list (.atom "display" :: s.live.map (fun i =>
+      .list (ofNat i :: u.nss.map (fun ns => .list ((displayNames a i ns).map .str))))),
+    .list (.atom "triples" :: a.rdf.map (fun t => .list [.str t.subj, .str t.pred,
+      match t.obj with | .uri x => .list [.atom "uri", .str x] | .lit x => .list [.atom "lit", .str x]]))]
+
+def runOps (u : Univ) : AState → List Sexp → List Sexp → List Sexp
+  | _, [], acc => acc.reverse
+  | a, o :: os, acc =>
+    match op? o with
+    | none => runOps u a os (.list [.atom "bad-op", .atom "none"] :: acc)
+    | some op =>
+      let r := astep a op
+      runOps u r.1 os (.list [ofOutcome r.2, snapshot u r.1] :: acc)
+
+/-- the model object `load_model` returns, as far as variables and ids go -/
+def ofFlat (mc : Option String) (F : Load.Flat) : AState :=
+  arun mc (F.vars.map (fun v => .base (.addVariable (C01.flatName v.ref) v.cmeta none)))
+
+def start (u : Univ) (a : AState) (ops : List Sexp) : Sexp :=
+  .list (.atom "ok" :: runOps u a ops [.list [.atom "init", snapshot u a]])
+
+def handle (args : List Sexp) : Sexp :=
+  match args with
+  | [.atom "run", ini, us, .list (.atom "ops" :: ops)] =>
+    match univ? us with
+    | none => .atom "bad-universe"
+    | some u =>
+      match ini with
+      | .list [.atom "api", mc] =>
+          match optStr? mc with
+          | some mc => start u (ainit mc) ops
+          | none => .atom "bad-request"
+      | .list (.atom "doc" :: mc :: rest) =>
+          match optStr? mc, C01.doc? rest with
+          | some mc, some d =>
+              match Load.load { d with cmeta := mc } with
+              | .error e => C01.errSexp e
+              | .ok F => start u (ofFlat mc F) ops
+          | _, _ => .atom "bad-document"
+      | _ => .atom "bad-request"
+  | _ => .atom "bad-request"
+
 end C13
